@@ -103,15 +103,14 @@ func httpServerSeeds() (sels []uint8, clients, origins [][]byte) {
 
 func FuzzHTTPServer(f *testing.F) {
 	sels, clients, origins := httpServerSeeds()
-	for i := range clients {
-		f.Add(sels[i], uint16(0), clients[i], origins[i])
-		f.Add(sels[i]|4, uint16(0x0011), clients[i], origins[i])
+	for _, i := range thin(len(clients), 160) {
+		f.Add(sels[i]|uint8(i%5/4)<<2, uint16(i%3), clients[i], origins[i])
 	}
 	f.Fuzz(func(t *testing.T, sel uint8, frag uint16, client, origin []byte) { oracleHTTPServer(t, sel, frag, client, origin) })
 }
 
 // sel: bit0 basic auth enabled, bit1 unused (kept for seed diversity), bit2 Abort instead of Proceed
-func oracleHTTPServer(t failer, sel uint8, frag uint16, client, origin []byte) {
+func oracleHTTPServer(t failer, sel uint8, frag uint16, client, origin []byte) (out oracleResult) {
 	desc := func() string {
 		return fmt.Sprintf("sel=%#x frag=%#x client=%q origin=%q", sel, frag, trunc(client), trunc(origin))
 	}
@@ -134,6 +133,7 @@ func oracleHTTPServer(t failer, sel uint8, frag uint16, client, origin []byte) {
 		t.Fatalf("SIG=C06/http-server-empty-request VERIF-VIOLATION HandleStream returned no error and no request: %s", desc())
 	}
 	res := useAddr(t, recHTTPServer, "http-server", req.Addr, req.Username, false)
+	out = oracleResult{true, req.Addr, req.Username, res}
 	form := "plain"
 	if bytes.HasPrefix(bytes.TrimLeft(client, "\r\n"), []byte("CONNECT")) {
 		form = "connect"
@@ -198,6 +198,7 @@ func oracleHTTPServer(t failer, sel uint8, frag uint16, client, origin []byte) {
 	}
 	cls := addrClass(req.Addr)
 	recHTTPServer.Case(fmt.Sprintf("%s/%d/%s", form, sel&1, cls), res.routed > 0 && wrote, append(labels, "class:"+cls)...)
+	return
 }
 
 func trunc(b []byte) []byte {
@@ -247,9 +248,8 @@ func httpClientSeeds() (sels []uint8, seeds [][]byte) {
 
 func FuzzHTTPClient(f *testing.F) {
 	sels, seeds := httpClientSeeds()
-	for i := range seeds {
-		f.Add(sels[i], uint16(0), seeds[i])
-		f.Add(sels[i]^1, uint16(0x1002), seeds[i])
+	for _, i := range thin(len(seeds), 160) {
+		f.Add(sels[i], uint16(i%3), seeds[i])
 	}
 	f.Fuzz(func(t *testing.T, sel uint8, frag uint16, data []byte) { oracleHTTPClient(t, sel, frag, data) })
 }
